@@ -410,8 +410,10 @@ class ValGen:
         rng = self.rng
         lo, hi = (-(2 ** (8 * n - 1)), 2 ** (8 * n - 1)) if signed else (0, 2 ** (8 * n))
         r = rng.random()
-        if r < 0.65:
+        if r < 0.58:
             return rng.choice([0, 1, 2, 3, 4])
+        if r < 0.65:
+            return rng.choice([8, 9, 11, 12])        # counts / sizes of eight and more (bulk-decoding shortcuts start there)
         if r < 0.8:
             return rng.choice([lo, hi - 1, -1 if signed else 5])
         return rng.randrange(lo, hi)
@@ -483,7 +485,7 @@ class ValGen:
                     raise GenFail('count')
                 if skip:
                     continue
-                if n > 8:
+                if n > 12:
                     raise GenFail('count')
                 for _ in range(max(n, 0)):
                     env[i] = env[i] + [self.elem_value(el, env, depth)]
